@@ -1,7 +1,7 @@
 (** C16 — property theorems only.  Each is closed by [exact] of a lemma in Proofs*.v and followed
     by [Print Assumptions]. *)
 From V Require Import Base.Util Gql.Ast Writer.Wop C16.Model C16.Spec
-  C16.ProofsTemplate C16.ProofsString C16.ProofsStrip C16.ProofsDoc C16.ProofsReindent C16.ProofsGlue C16.SpecLex C16.LexGuard C16.ProofsLex1 C16.ProofsLex2 C16.ProofsLex3 C16.Proofs.
+  C16.ProofsTemplate C16.ProofsString C16.ProofsStrip C16.ProofsDoc C16.ProofsReindent C16.ProofsGlue C16.SpecLex C16.LexGuard C16.ProofsLex1 C16.ProofsBlock C16.ProofsLex2 C16.ProofsLex3 C16.Proofs.
 Local Open Scope N_scope.
 
 (** the template literal JsStringWriter writes evaluates to a line feed followed by exactly what
@@ -56,31 +56,78 @@ Theorem C16_print_never_glues_opdoc : forall d, ProofsGlue.G (print_opdoc d) = t
 Proof. exact G_print_opdoc. Qed.
 Print Assumptions C16_print_never_glues_opdoc.
 
-(** token level.  Generic half: for any operation list whose chunks are simple texts or single-line
-    plain string literals carrying the tokens [ts] ([TK]) and do not glue ([G]), the text
-    JustWriter writes -- indentation included -- lexes (specification's lexer) to exactly [ts] *)
-Theorem C16_chunks_lex : forall ops ts,
-  TK ops ts -> ProofsGlue.G ops = true -> lex (just_run ops) = Some ts.
-Proof. intros ops ts H HG. apply L_lex. apply TK_lex_just_run; assumption. Qed.
+(** token level.  Generic half, for any reading [val] of string tokens, any meaning [sn] of the
+    document's string values and any class [blk] of multi-line values that fit together
+    (single-line literals read back to [sn v]; the literal of a [blk] value, written at any
+    indentation, reads back to [sn v]): for an operation list whose chunks are simple texts or such
+    string literals carrying the tokens [ts] ([TK]) and do not glue ([G]), the text JustWriter
+    writes -- indentation included -- lexes (specification's lexer) and reads to exactly [ts] *)
+Theorem C16_chunks_lex : forall (val : strtok -> str) (sn : str -> str) (blk : str -> bool),
+  (forall v, is_multiline v = false -> val (TNormal v) = sn v) ->
+  (forall v, blk v = true ->
+     is_multiline v = true /\ plain_block v = true /\ forall ind, val (TBlock (rawb ind v)) = sn v) ->
+  forall ops ts, TK val sn blk ops ts -> ProofsGlue.G ops = true -> lex_with val (just_run ops) = Some ts.
+Proof. exact TK_lex_just_run. Qed.
 Print Assumptions C16_chunks_lex.
 
+(** a multi-line value outside the known-finding classes ([plain_block]: no three quotes in a row,
+    not ending in a quote or backslash): its literal, as JustWriter writes it at any indentation and
+    followed by anything, is one block-string token; without carriage returns its value under the
+    specification is the BlockStringValue of the value *)
+Theorem C16_written_block_literal : forall v ind flag k,
+  is_multiline v = true -> plain_block v = true ->
+  ins ind flag (print_string v) ++ k = (if flag then spaces ind else []) ++ QQQ ++ rawb ind v ++ QQQ ++ k
+  /\ lex_string (QQQ ++ rawb ind v ++ QQQ ++ k) = Some (TBlock (rawb ind v), k)
+  /\ (no_cr v = true -> value_spec (TBlock (rawb ind v)) = block_string_value v).
+Proof.
+  intros v ind flag k Hm Hp. split; [|split].
+  - assert (Hps : print_string v = QQQ ++ v ++ QQQ).
+    { unfold print_string. rewrite Hm. unfold plain_block in Hp.
+      apply andb_true_iff in Hp as [Hp' _]. apply andb_true_iff in Hp' as [Hn _].
+      rewrite (block_body_id v 0) by (try lia; exact Hn). reflexivity. }
+    rewrite Hps. destruct (ins_literal ind flag v) as [E _]. rewrite E. rewrite <- !app_assoc. reflexivity.
+  - apply lex_string_written_block. exact Hp.
+  - intro Hc. apply rawb_spec_value; [|exact Hc]. unfold plain_block in Hp.
+    apply andb_true_iff in Hp as [Hp' _]. apply andb_true_iff in Hp' as [Hn _]. exact Hn.
+Qed.
+Print Assumptions C16_written_block_literal.
+
 (** the printed text of a document lexes to the token sequence of the document (the document
-    written out by the grammar).  Guard [_lx]: names / numbers are runs of word characters, strings
-    are single-line and plain, no #import lines, no member-less union extension *)
+    written out by the grammar).  nitrogql's reading of string tokens; guard [_lx_raw]: names /
+    numbers are runs of word characters, strings are single-line and plain, no #import lines, no
+    member-less union extension *)
 Theorem C16_print_tsdoc_lex : forall d,
-  tsdoc_lx d = true -> lex (just_run (print_tsdoc d)) = Some (tokens_of_tsdoc d).
+  tsdoc_lx_raw d = true -> lex (just_run (print_tsdoc d)) = Some (tokens_of_tsdoc d).
 Proof. exact print_tsdoc_lex. Qed.
 Print Assumptions C16_print_tsdoc_lex.
 
 Theorem C16_print_tsdoc_ext_lex : forall d,
-  tsdoc_lx d = true -> lex (just_run (print_tsdoc_ext d)) = Some (tokens_of_tsdoc d).
+  tsdoc_lx_raw d = true -> lex (just_run (print_tsdoc_ext d)) = Some (tokens_of_tsdoc d).
 Proof. exact print_tsdoc_ext_lex. Qed.
 Print Assumptions C16_print_tsdoc_ext_lex.
 
 Theorem C16_print_opdoc_lex : forall d,
-  opdoc_lx d = true -> lex (just_run (print_opdoc d)) = Some (tokens_of_opdoc d).
+  opdoc_lx_raw d = true -> lex (just_run (print_opdoc d)) = Some (tokens_of_opdoc d).
 Proof. exact print_opdoc_lex. Qed.
 Print Assumptions C16_print_opdoc_lex.
+
+(** the specification's reading; guard [_lx_spec]: as above, and multi-line string values that are
+    [block_lit] (no three quotes in a row, not ending in a quote or backslash, no carriage return),
+    wherever they are printed; such a value stands for its BlockStringValue ([snorm]) *)
+Theorem C16_print_tsdoc_lex_spec : forall d,
+  tsdoc_lx_spec d = true -> lex_spec (just_run (print_tsdoc d)) = Some (tokens_spec_tsdoc d).
+Proof. exact print_tsdoc_lex_spec. Qed.
+Print Assumptions C16_print_tsdoc_lex_spec.
+
+Theorem C16_print_tsdoc_ext_lex_spec : forall d,
+  tsdoc_lx_spec d = true -> lex_spec (just_run (print_tsdoc_ext d)) = Some (tokens_spec_tsdoc d).
+Proof. exact print_tsdoc_ext_lex_spec. Qed.
+Print Assumptions C16_print_tsdoc_ext_lex_spec.
+
+Theorem C16_print_opdoc_lex_spec : forall d,
+  opdoc_lx_spec d = true -> lex_spec (just_run (print_opdoc d)) = Some (tokens_spec_opdoc d).
+Proof. exact print_opdoc_lex_spec. Qed.
+Print Assumptions C16_print_opdoc_lex_spec.
 
 (** hence, for every parser of token sequences that is correct on the token sequences of
     documents (returns the document up to a relation [R], e.g. equality modulo positions):
@@ -88,7 +135,7 @@ Print Assumptions C16_print_opdoc_lex.
 Theorem C16_tsdoc_roundtrip_any_parser :
   forall (R : tsdoc -> tsdoc -> Prop) (parse : list tok -> option tsdoc),
   (forall a, exists a', parse (tokens_of_tsdoc a) = Some a' /\ R a' a) ->
-  forall d, tsdoc_lx d = true ->
+  forall d, tsdoc_lx_raw d = true ->
   exists d', match lex (just_run (print_tsdoc_ext d)) with Some ts => parse ts | None => None end = Some d' /\ R d' d.
 Proof. exact tsdoc_roundtrip_any_parser. Qed.
 Print Assumptions C16_tsdoc_roundtrip_any_parser.
@@ -96,10 +143,43 @@ Print Assumptions C16_tsdoc_roundtrip_any_parser.
 Theorem C16_opdoc_roundtrip_any_parser :
   forall (R : opdoc -> opdoc -> Prop) (parse : list tok -> option opdoc),
   (forall a, exists a', parse (tokens_of_opdoc a) = Some a' /\ R a' a) ->
-  forall d, opdoc_lx d = true ->
+  forall d, opdoc_lx_raw d = true ->
   exists d', match lex (just_run (print_opdoc d)) with Some ts => parse ts | None => None end = Some d' /\ R d' d.
 Proof. exact opdoc_roundtrip_any_parser. Qed.
 Print Assumptions C16_opdoc_roundtrip_any_parser.
+
+Theorem C16_tsdoc_roundtrip_any_parser_spec :
+  forall (R : tsdoc -> tsdoc -> Prop) (parse : list tok -> option tsdoc),
+  (forall a, exists a', parse (tokens_spec_tsdoc a) = Some a' /\ R a' a) ->
+  forall d, tsdoc_lx_spec d = true ->
+  exists d', match lex_spec (just_run (print_tsdoc_ext d)) with Some ts => parse ts | None => None end = Some d' /\ R d' d.
+Proof. exact tsdoc_roundtrip_any_parser_spec. Qed.
+Print Assumptions C16_tsdoc_roundtrip_any_parser_spec.
+
+Theorem C16_opdoc_roundtrip_any_parser_spec :
+  forall (R : opdoc -> opdoc -> Prop) (parse : list tok -> option opdoc),
+  (forall a, exists a', parse (tokens_spec_opdoc a) = Some a' /\ R a' a) ->
+  forall d, opdoc_lx_spec d = true ->
+  exists d', match lex_spec (just_run (print_opdoc d)) with Some ts => parse ts | None => None end = Some d' /\ R d' d.
+Proof. exact opdoc_roundtrip_any_parser_spec. Qed.
+Print Assumptions C16_opdoc_roundtrip_any_parser_spec.
+
+(** end to end: the value the emitted module exports (template literal evaluated by the
+    specification) lexes, under the specification's reading, to the token sequence of the checked
+    schema minus the nitrogql-only directives -- descriptions and default values included *)
+Theorem C16_server_module_lexes : forall model_plugin d,
+  directives_placed model_plugin d = true ->
+  tsdoc_ok (spec_server_schema model_plugin d) = true ->
+  tsdoc_lx_spec (spec_server_schema model_plugin d) = true ->
+  exists t, module_value (server_module model_plugin d) = Some t
+            /\ lex_spec t = Some (tokens_spec_tsdoc (spec_server_schema model_plugin d)).
+Proof. exact server_module_lexes. Qed.
+Print Assumptions C16_server_module_lexes.
+
+Theorem C16_template_single_write : forall x,
+  no_cr x = true -> eval_template (js_run [W x]) = Some (LF :: just_run [W x]).
+Proof. exact template_single_write. Qed.
+Print Assumptions C16_template_single_write.
 
 (** the literal print_string writes, followed by anything that is not a quote, lexes as one
     StringValue whose value (nitrogql's reading) is the string *)
